@@ -880,9 +880,11 @@ def _c03_parent_case(rng, i, kinds):
              'x, [parent(u, [parent(z)] deep: Deep)] inner: Inner']
     fields = [Field('k' if named else None, 'i32', []), Field('par' if named else None, 'P', [Attr('parent', rng.choice(forms))])]
     if rng.random() < 0.4:
-        fields.append(Field('par2' if named else None, 'P2', [Attr('parent', rng.choice(forms))]))
+        import re as _r
+        f2 = _r.sub(r'\b([a-z][a-z0-9_]*)\b', lambda m: m.group(1) if m.group(1) in ('parent', 'map') else m.group(1) + '2', rng.choice(forms))
+        fields.append(Field('par2' if named else None, 'P2', [Attr('parent', f2)]))
     if rng.random() < 0.5:
-        fields.append(Field('z' if named else None, 'i16', [Attr('map', 'zz')] if rng.random() < 0.5 else []))
+        fields.append(Field('zf' if named else None, 'i16', [Attr('map', 'zz')] if rng.random() < 0.5 else []))
     rng.shuffle(fields)
     return Item('struct', 'S', 'named' if named else 'tuple', '', attrs, fields, {'gen': 'c03_parent'})
 
@@ -2139,5 +2141,56 @@ def c02_cases(rng, n):
             v.spec = spec
             vs.append(v)
         it = Item('enum', 'E', 'named', '', attrs, vs, {'gen': 'c02'})
+        out.append(it)
+    return out
+
+
+# ---------------------------------------------------------------------------------------------
+# C09: literal / pattern enums over integer and string counterparts
+# ---------------------------------------------------------------------------------------------
+def c09_cases(rng, n):
+    out = []
+    for i in range(n):
+        strs = rng.random() < 0.3
+        cp = rng.choice(['&str', 'String'] if False else ['StrT']) if strs else rng.choice(['i32', 'u8', 'i64'])
+        names = rng.sample(['from_owned', 'from_ref', 'try_from_owned', 'owned_into', 'ref_into', 'owned_try_into', 'map', 'from', 'into', 'try_map'], rng.choice([1, 2, 3]))
+        taken = set()
+        attrs = []
+        has_default = rng.random() < 0.6
+        for nm in names:
+            ks = set(kinds_of(nm))
+            if ks & taken:
+                continue
+            taken |= ks
+            attrs.append(trait_attr(nm, cp, '', 'Er', '_ { dflt() }' if has_default else ''))
+        vs = []
+        spec = []
+        k = rng.randrange(1, 6)
+        lits = rng.sample(range(0, 12), k) if rng.random() < 0.8 else [rng.randrange(0, 3) for _ in range(k)]
+        for j in range(k):
+            r = rng.random()
+            va = []
+            lit = pat = None
+            if r < 0.55:
+                lit = ('"s%d"' % lits[j]) if strs else str(lits[j])
+                va.append(Attr('literal', lit))
+            elif r < 0.9:
+                if strs:
+                    pat = rng.choice(['_', '"s1" | "s2"', '"zz"'])
+                else:
+                    a = rng.randrange(0, 10)
+                    pat = rng.choice(['_', '%d..=%d' % (a, a + rng.randrange(0, 5)), '%d | %d' % (a, a + 2), '%d..' % a, 'i32::MIN..=-1' if cp == 'i32' else '200..=255'])
+                va.append(Attr('pattern', pat))
+                if rng.random() < 0.5:
+                    va.append(Attr('into', '{ conv%d() }' % j))
+                    spec_into = 'conv%d()' % j
+            v = Variant('V%d' % j, 'unit', [], va)
+            into_expr = None
+            for a in va:
+                if a.name == 'into':
+                    into_expr = a.args[1:-1].strip()
+            spec.append({'name': 'V%d' % j, 'lit': lit, 'pat': pat, 'into': into_expr})
+            vs.append(v)
+        it = Item('enum', 'E', 'named', '', attrs, vs, {'gen': 'c09', 'spec': spec, 'default': has_default, 'cp': cp})
         out.append(it)
     return out
